@@ -40,7 +40,8 @@ ASSUMPTIONS = [
     "middlewares are plain synchronous callables mw(next, root, ctx, info, **args) that call next exactly once (what the docstring of apply_middlewares documents)",
     "thread-pool runtime: ThreadPoolRuntime._inner is replaced by a manual executor so that the harness owns the completion order "
     "(atomic completions; callback bodies never overlap)",
-    "sibling response keys are distinct (guaranteed by collect_fields grouping), so a path identifies a field",
+    "sibling response keys are distinct (guaranteed by collect_fields grouping); under that hypothesis a path identifies a field "
+    "(theorem field_paths_unique) and every hook fires exactly once per path (field_hooks_exactly_once_per_path)",
 ]
 TRUSTED = [
     "hand-written model Instr.lean of _graphql.process_graphql_query / execute / Executor.resolve_field / BlockingExecutor.resolve_field / "
